@@ -53,9 +53,9 @@ META = {
                    "exactly the present revisions of ancestry(stop) minus ancestry(onto) (or the start..stop slice, minus merges dropped "
                    "by skip_full_merged), each new parent is onto, the new id of an earlier entry that rewrites an old parent (or a "
                    "parent of a dropped merge among them), or an old parent outside the replayed slice -- with and without "
-                   "skip_full_merged since the repair be02b0d; rebase_todo (plan order) puts dependencies first; the order rebase() "
-                   "uses (iter_topo_order of the keys) does so only without skip_full_merged (REFUTED with it: candidate finding "
-                   "C51-dropped-merge-replay-order); the plan file round-trips for all ids without blank/newline.  "
+                   "skip_full_merged since the repair be02b0d; rebase_todo (plan order) and every order rebase() may use since 7ede022 "
+                   "(any topo_sort of old parents + new-parent links, shown to exist) put dependencies first; "
+                   "the plan file round-trips for all ids without blank/newline.  "
                    "generate_transpose_plan is modelled and tied by correspondence, but only one small fact is proved about it."),
     "level_note": ("Trusted: Coq kernel, vm_compute, the hand models' correspondence (bounded sampling), vcsgraph (heads, find_lca, "
                    "find_difference, topo_sort) as modelled by Lib/Dag / Lib/DagTopo hypotheses (compared / checked on every run). "
@@ -194,8 +194,8 @@ FIXED = [
     [[], [0], [1], [0], [0], [3, 2, 1], [5]],
 ]
 
-# regression input of the fixed C51-skipped-merge-child (be02b0d) and witness of
-# C51-dropped-merge-replay-order: F = child of a merge E that skip_full_merged drops
+# regression input of the fixed C51-skipped-merge-child (be02b0d) and C51-dropped-merge-replay-order
+# (7ede022): F = child of a merge E that skip_full_merged drops
 WITNESS = {"kind": "plan", "via": "cmd", "g": FIXED[0], "todo": [3, 4, 5], "pm_order": [3, 4, 5],
            "order": [3, 4, 5], "start": None, "stop": 5, "onto": 2, "skip": True, "same": None}
 
@@ -601,13 +601,16 @@ def _linked(g, dropped, o, r):
     return o in g[r] or any(q in dropped and _linked(g, dropped, o, q) for q in g[r] if q < len(g))
 
 
-def _replay_violation(plan, replay):
+def _replay_violation(g, plan, replay):
     """rebase() replays in `replay` order: (message, old, the entry it needs) when an entry comes before one it depends on"""
     if sorted(replay) != sorted(e[0] for e in plan):
         return ("rebase() replays %r, which is not a permutation of the plan's keys" % (replay,), None, None)
     pos = {r: i for i, r in enumerate(replay)}
     by_new = {e[1]: e[0] for e in plan}
     for old, new, ps in plan:
+        for q in g[old]:
+            if q in pos and pos[q] > pos[old]:
+                return ("rebase() would replay %d before its old parent %d (replay order %r)" % (old, q, replay), old, q)
         for p in ps:
             if p in by_new and pos[by_new[p]] > pos[old]:
                 return ("rebase() would replay %d before %d, whose rewritten revision %d is one of its new parents (replay order %r)"
@@ -680,26 +683,15 @@ def oracle(inp, obs):
         return v[0]
     if todo_after != [e[0] for e in plan]:
         return "rebase_todo on a fresh plan gave %r, plan order is %r" % (todo_after, [e[0] for e in plan])
-    v = _replay_violation(plan, replay)
+    v = _replay_violation(g, plan, replay)
     if v:
         return v[0]
     return None
 
 
 def finding_matches(fid, inp, obs, why):
-    # C51-skipped-merge-child is fixed (be02b0d): no longer excused
-    if fid != "C51-dropped-merge-replay-order" or inp.get("kind") != "plan" or not inp["skip"]:
-        return False
-    res = obs[1] if inp["via"] == "cmd" else obs
-    if not isinstance(res, list) or not isinstance(res[0], list):
-        return False
-    if _plan_violation(inp, res[0]):
-        return False
-    v = _replay_violation(res[0], res[2])
-    if not v or v[1] is None:
-        return False
-    # the dependency runs through a dropped merge: the needed entry is not an old parent of the revision
-    return v[2] not in inp["g"][v[1]]
+    # C51-skipped-merge-child (be02b0d) and C51-dropped-merge-replay-order (7ede022) are fixed: nothing is excused
+    return False
 
 
 def nontrivial(inp, obs):
